@@ -23,6 +23,11 @@ MUST3 = [
     # a refutation that reaches only one peer: node 1 force-leaves the running node 2, node 2 refutes, only node 0 hears it
     [{"a": "forceleave", "n": 1, "x": 2, "prune": 0, "w": 0}, {"a": "deliver", "n": 2, "ty": 2, "x": 2, "lt": 2, "prune": 0, "w": 1},
      {"a": "deliver", "n": 0, "ty": 1, "x": 2, "lt": 3, "prune": 0, "w": 0}, {"a": "sync"}],
+    # the same, and the refutation reaches nobody by gossip: state sync alone must restore the running node's status
+    [{"a": "forceleave", "n": 1, "x": 2, "prune": 0, "w": 0}, {"a": "deliver", "n": 2, "ty": 2, "x": 2, "lt": 2, "prune": 0, "w": 1},
+     {"a": "sync"}],
+    [{"a": "forceleave", "n": 1, "x": 2, "prune": 0, "w": 0}, {"a": "deliver", "n": 0, "ty": 2, "x": 2, "lt": 2, "prune": 0, "w": 0},
+     {"a": "deliver", "n": 2, "ty": 2, "x": 2, "lt": 2, "prune": 0, "w": 1}, {"a": "sync"}],
 ]
 
 
